@@ -174,7 +174,7 @@ func (c04FaultComp) Exec(op string) (result, monitor, class string, nontrivial b
 
 // Gen: every client spelling x every fault x require-security, except the cells in which the REAL code only gives up after
 // its own 20-40 s timeout (a plain stdin client against a TLS stdio server that did start; an https endpoint without any
-// certificate keeps its listener without serving it) - those run once each in the thorough tier.
+// certificate keeps its listener without serving it).
 func (c04FaultComp) Gen(r *Rand, tier string, emit func(op string)) {
 	slow := func(cl, f string) bool {
 		started := f == "ok" || f == "okfile" || f == "nocert"
@@ -190,8 +190,5 @@ func (c04FaultComp) Gen(r *Rand, tier string, emit func(op string)) {
 			}
 		}
 	}
-	if tier == "thorough" {
-		emit("stdin ok 0")
-		emit("stdin nocert 1")
-	}
+	_ = tier // the slow cells (each 40 s: `stdin ok 0`, `stdin nocert 1` - both `refused`, as the model says) are not generated
 }
